@@ -221,6 +221,20 @@ CellsIn(g, bbox) ==
           /\ g.lon[c[2]] >= bbox[1] /\ g.lon[c[2]] <= bbox[3]
           /\ g.lat[c[1]] >= bbox[2] /\ g.lat[c[1]] <= bbox[4]
           /\ g.v[c[1]][c[2]] # NoCell }
+\* A requested box that holds no data cell is grown by half a degree on every side (clamped to the globe) until it
+\* does -- this is how the creator behaves; C20 itself only speaks of boxes that hold cells, for which nothing grows.
+\* Positions in HALF degrees, so that the growth steps stay integral.
+CellsInH(g, b) ==
+    { c \in (1..Len(g.lat)) \X (1..Len(g.lon)) :
+          /\ 2 * g.lon[c[2]] >= b[1] /\ 2 * g.lon[c[2]] <= b[3]
+          /\ 2 * g.lat[c[1]] >= b[2] /\ 2 * g.lat[c[1]] <= b[4]
+          /\ g.v[c[1]][c[2]] # NoCell }
+PadBox(b) == << IF b[1] - 1 < -360 THEN -360 ELSE b[1] - 1, IF b[2] - 1 < -180 THEN -180 ELSE b[2] - 1,
+               IF b[3] + 1 > 360 THEN 360 ELSE b[3] + 1, IF b[4] + 1 > 180 THEN 180 ELSE b[4] + 1 >>
+RECURSIVE Grow(_, _, _)
+Grow(g, b, k) == IF CellsInH(g, b) # {} \/ k = 0 \/ PadBox(b) = b THEN b ELSE Grow(g, PadBox(b), k - 1)
+EffCells(g, bbox) == CellsInH(g, Grow(g, << 2 * bbox[1], 2 * bbox[2], 2 * bbox[3], 2 * bbox[4] >>, 80))
+\* (for a box that holds a data cell nothing grows: EffCells = CellsIn)
 RECURSIVE SumCells(_, _, _)
 SumCells(g, C, sq) ==
     IF C = {} THEN 0
@@ -230,7 +244,7 @@ SumCells(g, C, sq) ==
 ISqrt(m) == IF m < 0 THEN -1
             ELSE IF \E r \in 0..m : r * r = m THEN CHOOSE r \in 0..m : r * r = m ELSE -1
 GridStats(g, bbox) ==
-    LET C  == CellsIn(g, bbox)
+    LET C  == EffCells(g, bbox)
         n  == Cardinality(C)
         vs == { g.v[c[1]][c[2]] : c \in C }
         sm == SumCells(g, C, FALSE)
